@@ -6,6 +6,7 @@ package harness
 
 import (
 	"fmt"
+	"os"
 	"reflect"
 	"sort"
 	"strings"
@@ -26,8 +27,10 @@ import (
 	ibchookskeeper "github.com/provenance-io/provenance/x/ibchooks/keeper"
 	ibcratelimitkeeper "github.com/provenance-io/provenance/x/ibcratelimit/keeper"
 	markerkeeper "github.com/provenance-io/provenance/x/marker/keeper"
+	markertypes "github.com/provenance-io/provenance/x/marker/types"
 	metadatakeeper "github.com/provenance-io/provenance/x/metadata/keeper"
 	msgfeeskeeper "github.com/provenance-io/provenance/x/msgfees/keeper"
+	msgfeestypes "github.com/provenance-io/provenance/x/msgfees/types"
 	namekeeper "github.com/provenance-io/provenance/x/name/keeper"
 	oraclekeeper "github.com/provenance-io/provenance/x/oracle/keeper"
 	triggerkeeper "github.com/provenance-io/provenance/x/trigger/keeper"
@@ -115,6 +118,35 @@ func permSetup(t *testing.T) *permEnv {
 			if err := a.BankKeeper.SendCoinsFromModuleToAccount(ctx, "mint", maddr, coins); err != nil {
 				t.Fatal(err)
 			}
+		}
+		// standings other than market permissions (static): A administers the restricted marker
+		// permrc, B the coin marker permuc (every access type the marker type allows, governance
+		// enabled, active, supply in escrow), C owns the root name permc, D is the oracle address,
+		// E holds nothing; one msg fee exists so that update/remove have something to act on.
+		for _, mk := range []struct {
+			denom, adm string
+			typ        markertypes.MarkerType
+			acc        markertypes.AccessList
+		}{
+			{permDenomR, "A", markertypes.MarkerType_RestrictedCoin, markertypes.AccessList{markertypes.Access_Mint, markertypes.Access_Burn,
+				markertypes.Access_Deposit, markertypes.Access_Withdraw, markertypes.Access_Delete, markertypes.Access_Admin, markertypes.Access_Transfer}},
+			{permDenomU, "B", markertypes.MarkerType_Coin, markertypes.AccessList{markertypes.Access_Mint, markertypes.Access_Burn,
+				markertypes.Access_Deposit, markertypes.Access_Withdraw, markertypes.Access_Delete, markertypes.Access_Admin}},
+		} {
+			m := markertypes.NewMarkerAccount(authtypes.NewBaseAccountWithAddress(markertypes.MustGetMarkerAddress(mk.denom)),
+				sdk.NewInt64Coin(mk.denom, 1000), e.addr[mk.adm],
+				[]markertypes.AccessGrant{{Address: e.addr[mk.adm].String(), Permissions: mk.acc}},
+				markertypes.StatusProposed, mk.typ, false, true, false, nil)
+			if err := a.MarkerKeeper.AddFinalizeAndActivateMarker(ctx, m); err != nil {
+				t.Fatalf("marker %s: %v", mk.denom, err)
+			}
+		}
+		if err := a.NameKeeper.SetNameRecord(ctx, permRootC, e.addr["C"], true); err != nil {
+			t.Fatalf("name: %v", err)
+		}
+		a.OracleKeeper.SetOracle(ctx, e.addr["D"])
+		if err := a.MsgFeesKeeper.SetMsgFee(ctx, msgfeestypes.NewMsgFee(permFeeURLSet, sdk.NewInt64Coin("nhash", 5), "", 0)); err != nil {
+			t.Fatalf("msgfee: %v", err)
 		}
 		e.base = ctx
 		e.srv = exchangekeeper.NewMsgServer(a.ExchangeKeeper)
@@ -397,7 +429,10 @@ func (e *permEnv) exec(op string) string {
 		}
 		return run(msg, ws[1], func(ctx sdk.Context) error { _, err := e.srv.ChangePaymentTarget(ctx, msg); return err })
 	case "gov":
-		return e.execGov(ws[1], ws[2])
+		if len(ws) < 3 {
+			return "bad-op"
+		}
+		return e.execGov(ws)
 	case "order":
 		// replay of an `order` line: create an equivalent real order (ids may differ in replays of
 		// hand-written files; generated files carry the id the chain assigned)
@@ -452,10 +487,258 @@ func (e *permEnv) permServers() map[string]any {
 	}
 }
 
-// execGov calls the module's real msg-server method for a governance-only message whose only
-// populated field is Authority = caller. A handler that compares the authority first rejects a
-// stranger with its authority error before looking at anything else.
-func (e *permEnv) execGov(name, caller string) string {
+const (
+	permDenomR     = "permrc" // restricted marker, account A holds every access
+	permDenomU     = "permuc" // coin marker, account B holds every access
+	permRootC      = "permc"  // root name bound to account C
+	permFeeURLSet  = "/provenance.name.v1.MsgBindNameRequest"   // has a msg fee in the fixture
+	permFeeURLFree = "/provenance.name.v1.MsgDeleteNameRequest" // has none
+)
+
+// permGovPayload is what a governance-only message is populated with besides its Authority:
+// the market its market-id fields name, the account every address-typed field names (the
+// message's "subject": record address, target/recipient address, new administrator, new
+// oracle, sanctioned address, market access-grant holder …), the denom its denom/coin fields
+// name, and the kind of name a name record carries.
+type permGovPayload struct {
+	bare   bool // only Authority is set (old op lines)
+	caller string
+	m      uint32
+	subj   string
+	denom  string
+	nm     string // root | kid
+}
+
+var (
+	permCoinT  = reflect.TypeOf(sdk.Coin{})
+	permIntT   = reflect.TypeOf(sdkmath.Int{})
+	permAddrRe = []string{"Address", "Recipient", "Administrator", "Account", "Owner", "Manager", "Contract", "Admin", "Seller", "Buyer", "Source", "Target"}
+)
+
+func permAddrLike(field string) bool {
+	if strings.Contains(field, "BasisPoints") {
+		return false
+	}
+	for _, w := range permAddrRe {
+		if strings.Contains(field, w) {
+			return true
+		}
+	}
+	return false
+}
+
+// permFill populates every still-empty field of a message generically (by field name/type), so
+// that message types added later get a subject-bearing payload too.
+func (e *permEnv) permFill(v reflect.Value, p permGovPayload, depth int) {
+	if depth > 6 {
+		return
+	}
+	switch v.Kind() {
+	case reflect.Ptr:
+		if v.IsNil() {
+			if !v.CanSet() || v.Type().Elem().Kind() != reflect.Struct {
+				return
+			}
+			v.Set(reflect.New(v.Type().Elem()))
+		}
+		e.permFill(v.Elem(), p, depth+1)
+	case reflect.Struct:
+		if v.Type() == permCoinT {
+			if v.CanSet() && v.Field(0).String() == "" {
+				v.Set(reflect.ValueOf(sdk.NewInt64Coin(p.denom, 1)))
+			}
+			return
+		}
+		if v.Type() == permIntT {
+			if v.CanSet() && v.Interface().(sdkmath.Int).IsNil() {
+				v.Set(reflect.ValueOf(sdkmath.NewInt(1)))
+			}
+			return
+		}
+		for i := 0; i < v.NumField(); i++ {
+			f, name := v.Field(i), v.Type().Field(i).Name
+			if !f.CanSet() {
+				continue
+			}
+			switch f.Kind() {
+			case reflect.String:
+				if f.String() != "" {
+					continue
+				}
+				switch {
+				case name == "Authority":
+					f.SetString(e.addr[p.caller].String())
+				case permAddrLike(name):
+					f.SetString(e.addr[p.subj].String())
+				case strings.HasSuffix(name, "Denom") || name == "Base" || name == "Display":
+					f.SetString(p.denom)
+				case name == "MsgTypeUrl":
+					f.SetString(permFeeURLSet)
+				case strings.Contains(name, "BasisPoints"):
+					f.SetString("5000")
+				}
+			case reflect.Uint32:
+				if name == "MarketId" && f.Uint() == 0 {
+					f.SetUint(uint64(p.m))
+				}
+			case reflect.Slice:
+				if f.Len() > 0 {
+					continue
+				}
+				et := f.Type().Elem()
+				switch {
+				case et.Kind() == reflect.String && permAddrLike(name):
+					f.Set(reflect.Append(f, reflect.ValueOf(e.addr[p.subj].String()).Convert(et)))
+				case et.Kind() == reflect.Struct || (et.Kind() == reflect.Ptr && et.Elem().Kind() == reflect.Struct):
+					if strings.HasPrefix(name, "Remove") || strings.HasPrefix(name, "Unset") {
+						continue // removing what is not there is an ordinary error; keep the request acceptable
+					}
+					el := reflect.New(et).Elem()
+					e.permFill(el, p, depth+1)
+					f.Set(reflect.Append(f, el))
+				case et.Kind() == reflect.Int32 && name == "Permissions":
+					f.Set(reflect.Append(f, reflect.ValueOf(int32(1)).Convert(et)))
+				}
+			case reflect.Struct, reflect.Ptr:
+				e.permFill(f, p, depth+1)
+			}
+		}
+	}
+}
+
+// permGovMsg builds the message for a `gov` op.
+func (e *permEnv) permGovMsg(url, name string, p permGovPayload) (sdk.Msg, string) {
+	msg, err := e.app.InterfaceRegistry().Resolve(url)
+	if err != nil {
+		return nil, "bad-op"
+	}
+	mv := reflect.ValueOf(msg).Elem()
+	mv.FieldByName("Authority").SetString(e.addr[p.caller].String())
+	if p.bare {
+		return msg, ""
+	}
+	mod := strings.SplitN(name, ".", 2)[0]
+	// a Params field starts from the module's current params (so an authority's request is acceptable)
+	if pf := mv.FieldByName("Params"); pf.IsValid() {
+		if kp, ok := e.permKeepers()[mod]; ok {
+			if gm := reflect.ValueOf(kp).MethodByName("GetParams"); gm.IsValid() && gm.Type().NumIn() == 1 {
+				func() {
+					defer func() { _ = recover() }()
+					out := gm.Call([]reflect.Value{reflect.ValueOf(e.ctx)})
+					cur := out[0]
+					switch {
+					case cur.Type() == pf.Type():
+						pf.Set(cur)
+					case cur.Kind() == reflect.Ptr && !cur.IsNil() && cur.Type().Elem() == pf.Type():
+						pf.Set(cur.Elem())
+					case pf.Kind() == reflect.Ptr && pf.Type().Elem() == cur.Type():
+						n := reflect.New(cur.Type())
+						n.Elem().Set(cur)
+						pf.Set(n)
+					}
+				}()
+			}
+		}
+	}
+	set := func(path string, val any) {
+		f := mv
+		for _, n := range strings.Split(path, ".") {
+			if f.Kind() == reflect.Ptr {
+				if f.IsNil() {
+					f.Set(reflect.New(f.Type().Elem()))
+				}
+				f = f.Elem()
+			}
+			f = f.FieldByName(n)
+			if !f.IsValid() {
+				return
+			}
+		}
+		f.Set(reflect.ValueOf(val).Convert(f.Type()))
+	}
+	// the few fields whose acceptable values cannot be guessed from name and type
+	switch name {
+	case "name.MsgCreateRootNameRequest":
+		nm := "vroot" + strings.ToLower(p.subj)
+		if p.nm == "kid" {
+			nm = "kid" + strings.ToLower(p.subj) + "." + permRootC
+		}
+		set("Record.Name", nm)
+		set("Record.Restricted", p.m%2 == 0)
+	case "marker.MsgChangeStatusProposalRequest":
+		set("NewStatus", int32(markertypes.StatusCancelled))
+	case "marker.MsgSetAdministratorProposalRequest":
+		set("Access", []markertypes.AccessGrant{{Address: e.addr[p.subj].String(),
+			Permissions: markertypes.AccessList{markertypes.Access_Admin, markertypes.Access_Mint, markertypes.Access_Burn, markertypes.Access_Withdraw}}})
+	case "marker.MsgUpdateForcedTransferRequest":
+		set("AllowForcedTransfer", true)
+	case "msgfees.MsgAddMsgFeeProposalRequest":
+		set("MsgTypeUrl", permFeeURLFree)
+		set("AdditionalFee", sdk.NewInt64Coin("nhash", 7))
+	case "msgfees.MsgUpdateMsgFeeProposalRequest":
+		set("AdditionalFee", sdk.NewInt64Coin("nhash", 7))
+	case "msgfees.MsgUpdateNhashPerUsdMilProposalRequest":
+		set("NhashPerUsdMil", uint64(1234))
+	case "exchange.MsgGovCreateMarketRequest":
+		id := uint32(0) // next free id
+		if p.m > 2 {
+			id = p.m
+		}
+		set("Market", exchange.Market{MarketId: id, MarketDetails: exchange.MarketDetails{Name: "verif gov market"},
+			AcceptingOrders: true, AllowUserSettlement: true,
+			AccessGrants: []exchange.AccessGrant{{Address: e.addr[p.subj].String(), Permissions: exchange.AllPermissions()}}})
+	}
+	e.permFill(reflect.ValueOf(msg), p, 0)
+	if name == "exchange.MsgGovCreateMarketRequest" && p.m <= 2 {
+		set("Market.MarketId", uint32(0)) // an existing market cannot be created again: take the next free id
+	}
+	return msg, ""
+}
+
+func (e *permEnv) permKeepers() map[string]any {
+	a := e.app
+	return map[string]any{
+		"attribute": a.AttributeKeeper, "exchange": a.ExchangeKeeper, "ibchooks": *a.IBCHooksKeeper,
+		"ibcratelimit": *a.RateLimitingKeeper, "marker": a.MarkerKeeper, "msgfees": a.MsgFeesKeeper,
+		"name": a.NameKeeper, "sanction": a.SanctionKeeper,
+	}
+}
+
+func permParseGovPayload(ws []string) permGovPayload {
+	p := permGovPayload{caller: ws[2], bare: len(ws) == 3, m: 1, subj: ws[2], denom: "nhash", nm: "root"}
+	if p.bare {
+		return p
+	}
+	if v := kvArg(ws, "m"); v != "" {
+		fmt.Sscan(v, &p.m)
+	}
+	if v := kvArg(ws, "subj"); v != "" {
+		p.subj = v
+	}
+	if v := kvArg(ws, "d"); v != "" {
+		p.denom = v
+	}
+	if v := kvArg(ws, "nm"); v != "" {
+		p.nm = v
+	}
+	return p
+}
+
+// execGov calls the module's real msg-server method for a governance-only message signed by
+// `caller` (Authority = caller) and populated from the payload. The first word is what the
+// caller observed: `err:authority` = turned away as not being the authority; `pass` = let
+// through, with the tag saying how the request ended (#ok = the handler accepted and executed
+// it, #err = it failed later for another reason, #panic, #rejectall = a retired endpoint).
+// Nothing a probe does is ever written: every probe runs on a discarded branch of the state.
+func (e *permEnv) execGov(ws []string) string {
+	name := ws[1]
+	p := permParseGovPayload(ws)
+	if _, ok := e.addr[p.caller]; !ok {
+		return "bad-op"
+	}
+	if _, ok := e.addr[p.subj]; !ok {
+		return "bad-op"
+	}
 	var url string
 	for _, u := range e.gov {
 		if permGovName(u) == name {
@@ -465,11 +748,13 @@ func (e *permEnv) execGov(name, caller string) string {
 	if url == "" {
 		return "bad-op"
 	}
-	msg, err := e.app.InterfaceRegistry().Resolve(url)
-	if err != nil {
-		return "bad-op"
+	msg, bad := e.permGovMsg(url, name, p)
+	if bad != "" {
+		return bad
 	}
-	reflect.ValueOf(msg).Elem().FieldByName("Authority").SetString(e.addr[caller].String())
+	if !e.signerOK(msg, p.caller) {
+		return "err:signer-mismatch"
+	}
 	parts := strings.SplitN(name, ".", 2)
 	srv, ok := e.permServers()[parts[0]]
 	if !ok {
@@ -493,12 +778,15 @@ func (e *permEnv) execGov(name, caller string) string {
 	}
 	if herr != nil {
 		m := herr.Error()
+		if os.Getenv("VERIF_PERM_DEBUG") != "" {
+			fmt.Fprintf(os.Stderr, "gov-debug %s: %s\n", strings.Join(ws, " "), m)
+		}
 		if (strings.Contains(m, "expected") && strings.Contains(m, "got")) || strings.Contains(m, "invalid signer") || strings.Contains(m, "unauthorized") {
 			return "err:authority"
 		}
 		if strings.Contains(m, "deprecated and unusable") {
 			// a retired endpoint that rejects every caller, the authority included
-			if caller == "GOV" {
+			if p.caller == "GOV" {
 				return "pass #rejectall"
 			}
 			return "err:authority #rejectall"
@@ -519,9 +807,53 @@ func drivePerm(t *testing.T, rng *RNG, n int, out *Out) {
 		emit := func(op string) string {
 			r := e.exec(op)
 			out.Count("op:" + strings.Fields(op)[0])
-			out.Count("res:" + resClass(strings.Fields(r)[0]))
+			if strings.HasPrefix(r, "grants=") {
+				out.Count("res:dump")
+			} else {
+				out.Count("res:" + resClass(strings.Fields(r)[0]))
+			}
 			out.Emit(op, r)
 			return r
+		}
+		// one probe of a governance-only message: the payload names market m, a subject (the
+		// caller itself more often than not), a denom (the marker the caller administers, if
+		// any, more often than not) and a kind of name
+		govProbe := func(gn, caller string, m uint32) {
+			if rng.Chance(8) {
+				m = 3 // no such market
+			}
+			subj := caller
+			if caller == "GOV" || rng.Chance(40) {
+				subj = Pick(rng, callers)
+			}
+			d := Pick(rng, []string{permDenomR, permDenomU, permDenomR, permDenomU, permDenomR, "nhash"})
+			if own := map[string]string{"A": permDenomR, "B": permDenomU}[caller]; own != "" && rng.Chance(60) {
+				d = own
+			}
+			nm := "root"
+			if rng.Chance(30) {
+				nm = "kid"
+			}
+			r := emit(fmt.Sprintf("gov %s %s m=%d subj=%s d=%s nm=%s", gn, caller, m, subj, d, nm))
+			standing := "none"
+			if caller == "GOV" {
+				standing = "authority"
+			} else if m <= 2 {
+				for _, ag := range e.app.ExchangeKeeper.GetAccessGrants(e.ctx, m) {
+					if e.sym(ag.Address) == caller {
+						standing = fmt.Sprintf("perms%d", len(ag.Permissions))
+					}
+				}
+			}
+			out.Count("gov-caller:" + standing)
+			if subj == caller {
+				out.Count("gov-subject:self")
+			} else {
+				out.Count("gov-subject:other")
+			}
+			if i := strings.Index(r, "#"); i >= 0 {
+				out.Count("gov-end:" + r[i+1:])
+			}
 		}
 		for s := 0; s < steps; s++ {
 			switch k := rng.Intn(100); {
@@ -679,14 +1011,66 @@ func drivePerm(t *testing.T, rng *RNG, n int, out *Out) {
 				}
 				emit("dump")
 			default:
-				emit(fmt.Sprintf("gov %s %s", permGovName(Pick(rng, e.gov)), Pick(rng, callers)))
+				m := uint32(1 + rng.Intn(2))
+				caller := Pick(rng, callers)
+				if ags := e.app.ExchangeKeeper.GetAccessGrants(e.ctx, m); len(ags) > 0 && rng.Chance(50) {
+					caller = e.sym(Pick(rng, ags).Address)
+				}
+				govProbe(permGovName(Pick(rng, e.gov)), caller, m)
 			}
 		}
-		// every history ends with one probe of every gov-only message by a stranger and by the authority
+		// every tenth history ends with a sweep over every gov-only message type: the authority, an
+		// account holding all seven permissions of the market the message names, a holder of some
+		// other subset, and an account with no market permission — each naming itself or someone
+		// else as the message's subject
 		if h%10 == 0 {
+			m := uint32(1 + rng.Intn(2))
+			full := Pick(rng, permNames)
+			var missing []string
+			held := map[string]int{}
+			for _, ag := range e.app.ExchangeKeeper.GetAccessGrants(e.ctx, m) {
+				held[e.sym(ag.Address)] = len(ag.Permissions)
+			}
+			for _, ag := range e.app.ExchangeKeeper.GetAccessGrants(e.ctx, m) {
+				if e.sym(ag.Address) == full {
+					for _, pn := range permPermNames {
+						has := false
+						for _, q := range ag.Permissions {
+							has = has || q.SimpleString() == pn
+						}
+						if !has {
+							missing = append(missing, pn)
+						}
+					}
+				}
+			}
+			if held[full] == 0 {
+				missing = permPermNames
+			}
+			if len(missing) > 0 {
+				emit(fmt.Sprintf("perms admin=GOV m=%d revokeall=- revoke=- grant=%s:%s", m, full, strings.Join(missing, "+")))
+				emit("dump")
+			}
+			var some, none []string
+			for _, n := range permNames {
+				switch {
+				case n == full:
+				case held[n] > 0:
+					some = append(some, n)
+				default:
+					none = append(none, n)
+				}
+			}
 			for _, u := range e.gov {
-				emit(fmt.Sprintf("gov %s %s", permGovName(u), Pick(rng, permNames)))
-				emit(fmt.Sprintf("gov %s GOV", permGovName(u)))
+				gn := permGovName(u)
+				govProbe(gn, "GOV", m)
+				govProbe(gn, full, m)
+				if len(some) > 0 {
+					govProbe(gn, Pick(rng, some), m)
+				}
+				if len(none) > 0 {
+					govProbe(gn, Pick(rng, none), m)
+				}
 			}
 			out.Count(fmt.Sprintf("gov-msg-types:%d", len(e.gov)))
 		}
